@@ -340,7 +340,7 @@ func runCase(c *fw.Ctx, idx int, count bool) {
 }
 
 func run(c *fw.Ctx) {
-	total := c.Pick(2500, 200000)
+	total := c.Pick(20000, 600000)
 	for i := 0; i < total; i++ {
 		if c.Mine(i) {
 			runCase(c, i, true)
